@@ -27,6 +27,8 @@ def frame_cases(run, n):
     rng = run.rng
     for i in range(n):
         pool = [UANodeId(rng.choice([0, 1, 2]), NodeIdType.NUMERIC, str(rng.randint(1, 12))) for _ in range(rng.randint(2, 10))]
+        if rng.random() < 0.4:      # twins: the same namespace and identifier text under another identifier type are different NodeIds
+            pool += [UANodeId(x.namespace, rng.choice([NodeIdType.STRING, NodeIdType.OPAQUE]), x.value) for x in rng.sample(pool, min(3, len(pool)))]
         k = rng.randint(1, 6)
         ids = rng.sample(pool, min(k, len(pool)))
         ids = list(dict.fromkeys(ids))
@@ -49,8 +51,11 @@ def frame_cases(run, n):
         except Exception as e:  # noqa: BLE001
             run.violation({"frame": i}, {"what": "normalize_wrt_nodeid raised", "impl": type(e).__name__ + ": " + str(e)[:200]})
             return
-        uniq = list(lk["uniques"])
+        by_label = dict(zip([int(x) for x in lk.index.tolist()], lk["uniques"].tolist()))     # read by LABEL, as a user of lookup_df does
+        uniq = [by_label.get(x, "<no lookup entry %d>" % x) for x in range(len(lk))]
         problems = []
+        if sorted(by_label) != list(range(len(lk))):
+            problems.append("lookup labels are not 0..n-1: %r" % sorted(by_label)[:12])
         if len(set(uniq)) != len(uniq):
             problems.append("duplicate NodeId in lookup")
         for j in range(len(ids)):
